@@ -50,6 +50,20 @@ package keeper
 // verif:func (Keeper).ConvertCoin
 //@ let ctx = sdk.UnwrapSDKContext(goCtx)
 //@ modifies world(ctx)
+//@ callsite MintingEnabled [guard-of-this-message] dollar_sender == first(sdk.AccAddressFromBech32(msg.Sender)) && dollar_receiver == common.HexToAddress(msg.Receiver).Bytes() && token == msg.Coin.Denom && denom == msg.Coin.Denom
+//@ callsite convertCoinNativeCoin [guarded-same-message] ncalls("MintingEnabled") == 1 && callsok("MintingEnabled") && pair == callres("MintingEnabled", 0) && dollar_msg == msg && dollar_receiver == common.HexToAddress(msg.Receiver) && dollar_sender == first(sdk.AccAddressFromBech32(msg.Sender)) && pair.IsNativeCoin()
+//@ callsite convertCoinNativeERC20 [guarded-same-message] ncalls("MintingEnabled") == 1 && callsok("MintingEnabled") && pair == callres("MintingEnabled", 0) && dollar_msg == msg && dollar_receiver == common.HexToAddress(msg.Receiver) && dollar_sender == first(sdk.AccAddressFromBech32(msg.Sender)) && pair.IsNativeERC20()
+//@ ensures [at-most-one-conversion] ncalls("convertCoinNativeCoin") + ncalls("convertCoinNativeERC20") <= 1
+//@ ensures [converted-or-nothing] result1 == nil && result0 != nil ==> ncalls("convertCoinNativeCoin") + ncalls("convertCoinNativeERC20") == 1 && callsok("convertCoinNativeCoin") && callsok("convertCoinNativeERC20")
+
+// verif:func (Keeper).ConvertERC20
+//@ let ctx = sdk.UnwrapSDKContext(goCtx)
+//@ modifies world(ctx)
+//@ callsite MintingEnabled [guard-of-this-message] dollar_sender == common.HexToAddress(msg.Sender).Bytes() && dollar_receiver == first(sdk.AccAddressFromBech32(msg.Receiver)) && token == msg.ContractAddress && denom == msg.Denom
+//@ callsite convertERC20NativeCoin [guarded-same-message] ncalls("MintingEnabled") == 1 && callsok("MintingEnabled") && pair == callres("MintingEnabled", 0) && dollar_msg == msg && dollar_receiver == first(sdk.AccAddressFromBech32(msg.Receiver)) && dollar_sender == common.HexToAddress(msg.Sender) && pair.IsNativeCoin()
+//@ callsite convertERC20NativeToken [guarded-same-message] ncalls("MintingEnabled") == 1 && callsok("MintingEnabled") && pair == callres("MintingEnabled", 0) && dollar_msg == msg && dollar_receiver == first(sdk.AccAddressFromBech32(msg.Receiver)) && dollar_sender == common.HexToAddress(msg.Sender) && pair.IsNativeERC20()
+//@ ensures [at-most-one-conversion] ncalls("convertERC20NativeCoin") + ncalls("convertERC20NativeToken") <= 1
+//@ ensures [converted-or-nothing] result1 == nil && result0 != nil ==> ncalls("convertERC20NativeCoin") + ncalls("convertERC20NativeToken") == 1 && callsok("convertERC20NativeCoin") && callsok("convertERC20NativeToken")
 
 // ---- ICS-20 receive hook (C16) --------------------------------------------------------------------
 // verif:import transfertypes github.com/cosmos/ibc-go/v3/modules/apps/transfer/types
@@ -203,3 +217,81 @@ package keeper
 
 // verif:func (Keeper).GetParams
 //@ ensures [read-only] unchanged(ctx)
+
+// ======================= C11: conversions move exactly the requested amount ======================================
+// (balances are those the token contract reports through balanceOf; ERC-20 and bank semantics are assumed)
+// verif:import big math/big
+// verif:import bytes bytes
+// verif:import crypto github.com/ethereum/go-ethereum/crypto
+
+// the guard of every conversion: module and pair enabled, token and denomination belong to the same registered pair,
+// the receiver is not a blocked address
+// verif:func (Keeper).MintingEnabled
+//@ ensures [module-enabled] result1 == nil ==> ncalls("GetParams") == 1 && callres("GetParams", 0).EnableAggregate
+//@ ensures [pair-enabled] result1 == nil ==> result0.Enabled
+//@ ensures [registered-pair] result1 == nil ==> ncalls("GetTokenPair") == 1 && callres("GetTokenPair", 1) && result0 == callres("GetTokenPair", 0)
+//@ ensures [receiver-not-blocked] result1 == nil ==> ncalls("BlockedAddr") == 1 && !callres("BlockedAddr", 0)
+//@ callsite BlockedAddr [the-receiver] addr == receiver.Bytes()
+
+// a module-signed contract call: the packed (method, args) are sent to exactly the given contract from the given sender
+// verif:func (Keeper).CallEVM
+//@ modifies evm(ctx)
+//@ modifies bank(ctx)
+//@ modifies supply(ctx)
+//@ modifies auth(ctx)
+//@ callsite Pack [this-method-these-args] name == method && dollar_args == args
+//@ callsite CallEVMWithData [this-sender-this-contract] dollar_from == from && *dollar_contract == contract && data == callres("Pack", 0) && callsok("Pack") && dollar_ctx == ctx
+//@ ensures [all-or-nothing] err != nil ==> unchanged(ctx)
+//@ ensures [called] err == nil ==> ncalls("CallEVMWithData") == 1 && callsok("CallEVMWithData") && result == callres("CallEVMWithData", 0)
+
+// coin -> token, module-owned contract: escrow exactly the coin, mint exactly the amount to the receiver, and the
+// receiver's reported token balance grew by exactly the amount
+// verif:func (Keeper).convertCoinNativeCoin
+//@ modifies world(ctx)
+//@ callsite SendCoinsFromAccountToModule [escrow-exact] senderAddr == sender && recipientModule == types.ModuleName && amt == sdk.Coins{msg.Coin} && dollar_ctx == ctx
+//@ callsite CallEVM [mint-exact] method == "mint" && from == types.ModuleAddress && contract == pair.GetERC20Contract() && len(args) == 2 && as(args[0], common.Address) == receiver && *as(args[1], *big.Int) == msg.Coin.Amount && ncalls("SendCoinsFromAccountToModule") == 1 && callsok("SendCoinsFromAccountToModule")
+//@ callsite balanceOf [receiver-balance] contract == pair.GetERC20Contract() && account == receiver
+//@ ensures [moved-exactly] result1 == nil ==> ncalls("SendCoinsFromAccountToModule") == 1 && callsok("SendCoinsFromAccountToModule") && ncalls("CallEVM") == 1 && callsok("CallEVM") && ncalls("balanceOf") == 2 && *callres("balanceOf", 0, 2) == *callres("balanceOf", 0, 1) + msg.Coin.Amount
+
+// token -> coin, module-owned contract: burn exactly the amount from the sender, release exactly the coin to the
+// receiver; both reported balances moved by exactly the amount
+// verif:func (Keeper).convertERC20NativeCoin
+//@ modifies world(ctx)
+//@ callsite CallEVM [burn-exact] method == "burnCoins" && from == types.ModuleAddress && contract == pair.GetERC20Contract() && len(args) == 2 && as(args[0], common.Address) == sender && *as(args[1], *big.Int) == msg.Amount
+//@ callsite SendCoinsFromModuleToAccount [release-exact] senderModule == types.ModuleName && recipientAddr == receiver && len(amt) == 1 && amt[0].Denom == msg.Denom && amt[0].Amount == msg.Amount && ncalls("CallEVM") == 1 && callsok("CallEVM")
+//@ callsite balanceOf [sender-balance] contract == pair.GetERC20Contract() && account == sender
+//@ callsite GetBalance [receiver-coin-balance] addr == receiver && denom == msg.Denom
+//@ ensures [moved-exactly] result1 == nil ==> ncalls("CallEVM") == 1 && callsok("CallEVM") && ncalls("SendCoinsFromModuleToAccount") == 1 && callsok("SendCoinsFromModuleToAccount") && ncalls("balanceOf") == 2 && *callres("balanceOf", 0, 2) == *callres("balanceOf", 0, 1) - msg.Amount && ncalls("GetBalance") == 2 && callres("GetBalance", 0, 2).Amount == callres("GetBalance", 0, 1).Amount + msg.Amount
+
+// token -> voucher coin, externally owned contract: the sender transfers exactly the amount to the module (reported
+// escrow balance grew by exactly it, transfer returned true, no Approval event), exactly the voucher is minted and
+// sent to the receiver
+// verif:func (Keeper).convertERC20NativeToken
+//@ modifies world(ctx)
+//@ callsite CallEVMWithData [transfer-from-sender] from == sender && *dollar_contract == pair.GetERC20Contract()
+//@ callsite MintCoins [mint-exact] moduleName == types.ModuleName && len(amt) == 1 && amt[0].Denom == msg.Denom && amt[0].Amount == msg.Amount
+//@ callsite SendCoinsFromModuleToAccount [send-exact] senderModule == types.ModuleName && recipientAddr == receiver && len(amt) == 1 && amt[0].Denom == msg.Denom && amt[0].Amount == msg.Amount && ncalls("MintCoins") == 1 && callsok("MintCoins")
+//@ callsite balanceOf [escrow-balance] contract == pair.GetERC20Contract() && account == types.ModuleAddress
+//@ ensures [moved-exactly] result1 == nil ==> ncalls("CallEVMWithData") == 1 && callsok("CallEVMWithData") && ncalls("MintCoins") == 1 && callsok("MintCoins") && ncalls("SendCoinsFromModuleToAccount") == 1 && callsok("SendCoinsFromModuleToAccount") && ncalls("balanceOf") == 2 && *callres("balanceOf", 0, 2) == *callres("balanceOf", 0, 1) + msg.Amount && ncalls("GetBalance") == 2 && callres("GetBalance", 0, 2).Amount == callres("GetBalance", 0, 1).Amount + msg.Amount
+//@ ensures [no-approval-side-effect] result1 == nil ==> ncalls("monitorApprovalEvent") == 1 && callsok("monitorApprovalEvent")
+
+// voucher coin -> token, externally owned contract: escrow exactly the voucher, the module transfers exactly the
+// amount to the receiver (reported balance grew by exactly it), the escrowed voucher is burned
+// verif:func (Keeper).convertCoinNativeERC20
+//@ modifies world(ctx)
+//@ callsite SendCoinsFromAccountToModule [escrow-exact] senderAddr == sender && recipientModule == types.ModuleName && amt == sdk.Coins{msg.Coin}
+//@ callsite CallEVM [transfer-exact] method == "transfer" && from == types.ModuleAddress && contract == pair.GetERC20Contract() && len(args) == 2 && as(args[0], common.Address) == receiver && *as(args[1], *big.Int) == msg.Coin.Amount && ncalls("SendCoinsFromAccountToModule") == 1 && callsok("SendCoinsFromAccountToModule")
+//@ callsite BurnCoins [burn-exact] moduleName == types.ModuleName && amt == sdk.Coins{msg.Coin}
+//@ callsite balanceOf [receiver-balance] contract == pair.GetERC20Contract() && account == receiver
+//@ ensures [moved-exactly] result1 == nil ==> ncalls("SendCoinsFromAccountToModule") == 1 && callsok("SendCoinsFromAccountToModule") && ncalls("CallEVM") == 1 && callsok("CallEVM") && ncalls("BurnCoins") == 1 && callsok("BurnCoins") && ncalls("balanceOf") == 2 && *callres("balanceOf", 0, 2) == *callres("balanceOf", 0, 1) + msg.Coin.Amount
+//@ ensures [no-approval-side-effect] result1 == nil ==> ncalls("monitorApprovalEvent") == 1 && callsok("monitorApprovalEvent")
+
+// an Approval event among the logs of the token call is refused
+// verif:func (Keeper).monitorApprovalEvent
+//@ loop 1 invariant forall j int :: 0 <= j && j < idx1 ==> res.Logs[j].Topics[0] != crypto.Keccak256Hash(bytes("Approval(address,address,uint256)")).Hex()
+//@ ensures [no-approval] result == nil && res != nil ==> forall i int :: 0 <= i && i < len(res.Logs) ==> res.Logs[i].Topics[0] != crypto.Keccak256Hash(bytes("Approval(address,address,uint256)")).Hex()
+
+// the reported balance of an account (nil when the call or the decoding fails)
+// verif:func (Keeper).balanceOf
+//@ modifies world(ctx)
+//@ callsite CallEVM [a-balance-query] method == "balanceOf" && from == types.ModuleAddress && dollar_contract == contract && len(args) == 1 && as(args[0], common.Address) == account
